@@ -83,12 +83,12 @@ package fs
 //@   modifies nothing
 //   (bounded stand-ins: chains of str.replace_all are not decided by any installed solver within budget, so
 //    these two clauses are executed against the real function on an enumerated input space instead)
-//@   ensures question_mark [C21 bounded]: !contains(pattern, "+") && !contains(pattern, ".") && !contains(pattern, "*") ==> \
+//@   ensures question_mark [C21 bounded]: !contains(pattern, "+") && !contains(pattern, ".") && !contains(pattern, "*") && !contains(pattern, "(") && !contains(pattern, ")") && !contains(pattern, "$") && !contains(pattern, "|") && !contains(pattern, "{") && !contains(pattern, "}") ==> \
 //@      result == "^" + replaceAll(pattern, "?", ".") + "$"
 //@   ensures other_characters_are_literal [C21 bounded]: !contains(pattern, "+") && !contains(pattern, ".") && !contains(pattern, "?") && \
 //@      !contains(pattern, "*") && !contains(pattern, "|") && !contains(pattern, "{") && !contains(pattern, "}") && !contains(pattern, "\\") ==> \
 //@      result == "^" + replaceAll(replaceAll(replaceAll(pattern, "(", "\\("), ")", "\\)"), "$", "\\$") + "$"
-//@   ensures literal_dot [C21 bounded]: !contains(pattern, "+") && !contains(pattern, "?") && !contains(pattern, "*") ==> \
+//@   ensures literal_dot [C21 bounded]: !contains(pattern, "+") && !contains(pattern, "?") && !contains(pattern, "*") && !contains(pattern, "(") && !contains(pattern, ")") && !contains(pattern, "$") && !contains(pattern, "|") && !contains(pattern, "{") && !contains(pattern, "}") ==> \
 //@      result == "^" + replaceAll(pattern, ".", "\\.") + "$"
 //
 // The directory walk of a glob: a BUILD file — whatever kind of directory entry it is — makes its directory
